@@ -22,7 +22,7 @@ findings = [
     rec("KF-P6-dust-pool-quotes", "C19", "C19_quote_inexact", "contracts/pool-manager/src/helpers.rs calculate_stableswap_y / compute_swap precision conversions",
         "on an 18/18-decimals amp-1 pool holding 0.008 token the quote exceeds the tolerance by a few units (listed offers and quotes)"),
     rec("KF-C13-deposit-ratio-precision", "C13", "C13_out_of_tolerance_deposit_accepted", "contracts/pool-manager/src/helpers.rs assert_slippage_tolerance, ConstantProduct branch (both ratios rounded to 18 decimals)",
-        "on a pool whose raw reserve ratio exceeds 10^18 one of the two ratio comparisons rounds to 0 > 0 and a deposit at half the pool ratio passes a 0% tolerance (listed inputs)"),
+        "on a pool whose raw reserve ratio exceeds 10^18 one of the two ratio comparisons rounds to 0 > 0 and a deposit at half the pool ratio passes a 0% tolerance; the same comparison judges the deposit leg of a single-asset deposit (listed inputs)"),
     rec("KF-P5-stableswap-deposit-tolerance", "C13", "C13_proportional_deposit_refused", "contracts/pool-manager/src/helpers.rs assert_slippage_tolerance, StableSwap branch (rejects when D_final/D_initial > tolerance, a ratio that is always >= 1)",
         "a stableswap deposit in exact pool proportion is refused under every liquidity_max_slippage (listed pools/tolerances); needs a decision on what the tolerance should measure"),
 ]
